@@ -15,6 +15,7 @@ import (
 	"reflect"
 	"sort"
 	"strings"
+	"sync"
 	"testing/synctest"
 	"time"
 	"unsafe"
@@ -88,8 +89,8 @@ type rng struct{ b, e int64 }
 type shadow struct {
 	hash  string // announced hash the ranges below belong to
 	size  int64
-	acked []rng          // Receive returned nil and the reader delivered the full length
-	fed   map[int64]byte // last byte written at each offset by an acked part (this hash)
+	acked []rng // Receive returned nil and the reader delivered the full length
+	fed   map[int64]byte
 	dirty bool           // some acked byte differs from the true content of the version (or staged copy overwritten)
 }
 
@@ -129,6 +130,8 @@ type World struct {
 	completed map[string]bool      // key -> all bytes acked at some point
 	others    map[string]int
 	stages    []*stage.Stage
+	mu        sync.Mutex
+	Quiet     bool // no trace notes (bulk phases)
 }
 
 func NewWorld(t *vt.T, prop string) *World {
@@ -295,25 +298,46 @@ func (r *stepReader) Read(p []byte) (int, error) {
 // received without error.
 func (w *World) Request(parts []PartSpec) (n int, err error) {
 	w.step++
+	w.prepare(parts)
+	n, err = w.receiveAll(parts, "")
+	w.restamp()
+	return
+}
+
+// RequestsConcurrent runs several requests at once, one goroutine each (as
+// requests on several connections are served).
+func (w *World) RequestsConcurrent(reqs [][]PartSpec) {
+	w.step++
+	for _, r := range reqs {
+		w.prepare(r)
+	}
+	var wg sync.WaitGroup
+	for i, r := range reqs {
+		wg.Add(1)
+		go func(i int, r []PartSpec) {
+			defer wg.Done()
+			w.receiveAll(r, fmt.Sprintf("conn%d ", i))
+		}(i, r)
+	}
+	wg.Wait()
+	w.restamp()
+}
+
+func (w *World) prepare(parts []PartSpec) {
 	bs := make([]sts.Binned, len(parts))
 	for i, p := range parts {
 		bs[i] = &binned{p.V, p.Beg, p.End}
 	}
-	// Prepare may (re)create the staged file when the announced size changed
-	for _, p := range parts {
-		s := w.sh(p.V.Name)
-		if s.size != p.V.Size() {
-			info, e := os.Stat(filepath.Join(w.StageDir(), p.V.Name) + ".part")
-			if e != nil || info.Size() != p.V.Size() {
-				s.fed = map[int64]byte{}
-			}
-		}
-	}
 	w.st.Prepare(bs)
+}
+
+func (w *World) receiveAll(parts []PartSpec, tag string) (n int, err error) {
 	for i, p := range parts {
 		if p.Fault == FNoReceive {
 			err = errors.New("connection cut")
-			w.t.Note("#%d   part %d %s [%d,%d): not delivered (cut)", w.step, i, p.V.Name, p.Beg, p.End)
+			w.mu.Lock()
+			w.t.Note("#%d   %spart %d %s [%d,%d): not delivered (cut)", w.step, tag, i, p.V.Name, p.Beg, p.End)
+			w.mu.Unlock()
 			break
 		}
 		data := append([]byte{}, p.V.Data[p.Beg:p.End]...)
@@ -337,7 +361,10 @@ func (w *World) Request(parts []PartSpec) (n int, err error) {
 			Time: marshal.NanoTime{Time: p.V.Time}, Hash: p.V.Hash, Source: "src",
 			Parts: []*sts.ByteRange{{Beg: p.Beg, End: p.End}}}
 		e := w.st.Receive(file, rd)
-		w.t.Note("#%d   part %d %s#%s [%d,%d) fault=%d -> %v", w.step, i, p.V.Name, p.V.Hash[:4], p.Beg, p.End, p.Fault, e)
+		w.mu.Lock()
+		if !w.Quiet {
+			w.t.Note("#%d   %spart %d %s#%s [%d,%d) fault=%d -> %v", w.step, tag, i, p.V.Name, p.V.Hash[:4], p.Beg, p.End, p.Fault, e)
+		}
 		s := w.sh(p.V.Name)
 		if s.hash != p.V.Hash || s.size != p.V.Size() {
 			// a different version replaces the record (on the first part that
@@ -347,36 +374,35 @@ func (w *World) Request(parts []PartSpec) (n int, err error) {
 				s.size = p.V.Size()
 				s.acked = nil
 				s.dirty = false
-				nf := map[int64]byte{}
-				s.fed = nf
 			}
 		}
 		if e != nil {
+			w.mu.Unlock()
 			err = e
 			break
 		}
 		n++
 		if full {
 			s.acked = append(s.acked, rng{p.Beg, p.End})
-			for j, b := range data {
-				s.fed[p.Beg+int64(j)] = b
-			}
 			if corrupt || p.V.Liar() {
 				s.dirty = true
 			}
 			if covered(s.acked, 0, s.size) {
 				w.completed[p.V.key()] = true
 			}
+			w.mu.Unlock()
 		} else {
+			w.mu.Unlock()
 			// acknowledged although the reader ended early (judged by C09/C13)
 			if w.viol("C09", "short-read-acknowledged", "Receive returned nil for part [%d,%d) of %s although the reader ended after %d bytes", p.Beg, p.End, p.V.Name, len(rd.data)) {
 				// known: remember that the record now over-claims this range
+				w.mu.Lock()
 				s.acked = append(s.acked, rng{p.Beg, p.End})
 				s.dirty = true
+				w.mu.Unlock()
 			}
 		}
 	}
-	w.restamp()
 	return
 }
 
@@ -450,7 +476,9 @@ func (w *World) Consume() []Arrival {
 		}
 		w.arrivals = append(w.arrivals, a)
 		out = append(out, a)
-		w.t.Note("#%d ARRIVAL %s md5=%s size=%d", w.step, rel, a.MD5[:4], a.Size)
+		if !w.Quiet {
+			w.t.Note("#%d ARRIVAL %s md5=%s size=%d", w.step, rel, a.MD5[:4], a.Size)
+		}
 		return nil
 	})
 	return out
